@@ -352,6 +352,52 @@ def sec_features(w, tok, par, lib, lib_raw):
     w("")
 
 
+def sec_errors(w, tok, par, lib, lib_raw):
+    """pub enum Error (parse.rs): the variants with the types of their fields, in declaration order, and
+    fn pos: per variant the index of the field that is returned, or None for TextPos::new(1, 1)."""
+    blk, _ = block_after(par, r"pub\s+enum\s+Error\s*\{", "pub enum Error")
+    blk = re.sub(r"#\[[^\]]*\]", "", blk)
+    vs = re.findall(r"(\w+)\s*(?:\(([^)]*)\))?\s*,", blk)
+    if len(vs) < 10:
+        raise TieLost("pub enum Error: variants not recognised")
+    tymap = {"TextPos": "TyPos", "String": "TyStr", "&'static str": "TyStr", "u8": "TyByte", "char": "TyChar"}
+    rows = []
+    arity = {}
+    for name, fields in vs:
+        fl = [f.strip() for f in fields.split(",") if f.strip()] if fields else []
+        for f in fl:
+            if f not in tymap:
+                raise TieLost("pub enum Error: field type %r of %s not known" % (f, name))
+        arity[name] = len(fl)
+        rows.append("  (%s, [%s])" % (coq_string(name), "; ".join(tymap[f] for f in fl)))
+    w("(* parse.rs, pub enum Error: (variant, field types) in declaration order *)")
+    w("Inductive fty := TyPos | TyStr | TyByte | TyChar.")
+    w("Definition error_enum : list (string * list fty) := [\n" + ";\n".join(rows) + "].")
+    impl, _ = block_after(par, r"impl\s+Error\s*\{", "impl Error")
+    body, _ = block_after(impl, r"fn\s+pos\s*\(\s*&self\s*\)\s*->\s*TextPos\s*\{", "Error::pos")
+    arms = re.findall(r"((?:Error::\w+\s*(?:\([^)]*\))?\s*\|?\s*)+)=>\s*(TextPos::new\([^)]*\)|[^,]+?)\s*,", body)
+    prow = []
+    seen = set()
+    for pats, rhs in arms:
+        rhs = rhs.strip()
+        for name, binds in re.findall(r"Error::(\w+)\s*(?:\(([^)]*)\))?", pats):
+            bl = [re.sub(r"^(ref\s+|mut\s+)+", "", x.strip()) for x in binds.split(",")] if binds.strip() else []
+            if name not in arity or (bl and ".." not in bl and len(bl) != arity[name]):
+                raise TieLost("Error::pos: pattern of %s does not fit the enum" % name)
+            if re.fullmatch(r"TextPos::new\(\s*1\s*,\s*1\s*\)", rhs):
+                prow.append("  (%s, None)" % coq_string(name))
+            elif re.fullmatch(r"\*?\w+", rhs) and rhs.lstrip("*") in bl and rhs.lstrip("*") != "_":
+                prow.append("  (%s, Some %d%%nat)" % (coq_string(name), bl.index(rhs.lstrip("*"))))
+            else:
+                raise TieLost("Error::pos: right-hand side %r of %s not recognised" % (rhs, name))
+            seen.add(name)
+    if seen != set(arity):
+        raise TieLost("Error::pos: arms do not cover the enum")
+    w("(* parse.rs, Error::pos: the index of the field returned, None for TextPos::new(1, 1) *)")
+    w("Definition pos_table : list (string * option nat) := [\n" + ";\n".join(prow) + "].")
+    w("")
+
+
 def write_if_changed(path, text):
     old = None
     if os.path.exists(path):
@@ -393,6 +439,10 @@ def main():
             "From Coq Require Import List String.", "Import ListNotations.", "Open Scope string_scope.", ""]
     run_section('features', sec_features, (tok, par, lib, lib_raw), out3, sections, weak, fallback)
     write_if_changed(OUT.replace("Generated.v", "GeneratedFeatures.v"), "\n".join(out3) + "\n")
+    out4 = ["(* GENERATED by tools/gen_tables.py from %s/src -- do not edit. *)" % REPO,
+            "From Coq Require Import List String.", "Import ListNotations.", "Open Scope string_scope.", ""]
+    run_section('errors', sec_errors, (tok, par, lib, lib_raw), out4, sections, weak, fallback)
+    write_if_changed(OUT.replace("Generated.v", "GeneratedErrors.v"), "\n".join(out4) + "\n")
     text = "\n".join(out) + "\n"
     old = None
     if os.path.exists(OUT):
